@@ -110,7 +110,7 @@ def isDeny (rule : PyVal) : Bool := pyEq (effectOf rule) (.str "deny")
 /-- deny-overrides: the report of the earlier rule at `i` — the first later rule it overlaps, if it is a deny rule -/
 def denyAt (acts : PyVal → PyVal) (cov : PyVal → PyVal → PyVal) (rules : List PyVal) (i : Nat) (earlier : PyVal) : List PyVal :=
   if isDeny earlier then
-    (((natsFrom (i + 1) (rules.length - (i + 1))).find? (overlaps acts cov rules earlier)).map fun j =>
+    (((natsFrom (i + 1) (rules.length - (i + 1))).find? fun j => overlaps acts cov rules earlier j).map fun j =>
       mkIssue "OVERLAPPED_BY_DENY" (ruleAt rules j) earlier j i).toList
   else []
 
@@ -167,6 +167,6 @@ def childrenOf (policyset : PyVal) : List PyVal := Py.iter (por (policyset.get "
 
 /-- `analyze_policyset(policyset, require_attrs=…)`: every child on its own -/
 def analyzePolicyset (E : Env) (policyset requireAttrs : PyVal) : List PyVal :=
-  (enumNat 0 (childrenOf policyset)).flatMap fun kc => (analyzePolicy E kc.2 requireAttrs).map (tag kc.1)
+  (enumNat 0 (childrenOf policyset)).flatMap fun kc => (analyzePolicy E kc.2 requireAttrs).map fun it => tag kc.1 it
 
 end Rbacx.Lint
